@@ -8,8 +8,10 @@ import (
 	"fmt"
 	"runtime"
 	"sort"
+	"strings"
 	"sync"
 	"sync/atomic"
+	"time"
 
 	"pgregory.net/rapid"
 
@@ -621,10 +623,15 @@ type CaseStress struct {
 	Producers []int  `json:"producers"` // items per producer
 	Consumers []bool `json:"consumers"` // per consumer: PopAnyway?
 	CloseAt   int    `json:"close_at"`  // closer closes after this many accepted adds (or when producers are done)
+	// Entries: "" every producer uses the ordinary add; "mixed": per item, by its number, the entry points in turn -
+	// ordinary / at the front / Add*Anyway, on the request and (two-lane queue) the control lane. Front adds and a second
+	// lane give up the per-producer order, which is then not asked for
+	Entries string `json:"entries,omitempty"`
 }
 
 func GenStress(t *rapid.T) CaseStress {
-	c := CaseStress{Kind: rapid.SampledFrom(blockingKinds).Draw(t, "kind")}
+	// (the two-lane queue has twice the entry points: weight 3 in 7)
+	c := CaseStress{Kind: rapid.SampledFrom(append([]string{qadapt.KindMQ, qadapt.KindMQ}, blockingKinds...)).Draw(t, "kind")}
 	c.CapReq = rapid.SampledFrom([]int{0, 0, 1, 2, 5}).Draw(t, "cap")
 	c.Procs = rapid.SampledFrom([]int{1, 2, 4, 8}).Draw(t, "procs")
 	np := rapid.IntRange(1, 4).Draw(t, "np")
@@ -639,7 +646,27 @@ func GenStress(t *rapid.T) CaseStress {
 		c.Consumers = append(c.Consumers, rapid.Bool().Draw(t, "anyway"))
 	}
 	c.CloseAt = rapid.IntRange(0, total+5).Draw(t, "closeat")
+	if rapid.Bool().Draw(t, "mixedentries") {
+		c.Entries = "mixed"
+	}
 	return c
+}
+
+// stressAdd is one add of a producer in the stress part: the entry points in turn (cf. tieAdd), with the outcome
+func stressAdd(q *qadapt.Q, kind string, turn, v int) qadapt.Outcome {
+	lane := qadapt.LaneReq
+	if kind == qadapt.KindMQ && turn%6 >= 3 {
+		lane = qadapt.LaneCtrl
+	}
+	switch {
+	case kind == qadapt.KindSync:
+		return q.Add(lane, v)
+	case turn%3 == 1:
+		return q.AddPrior(lane, v)
+	case turn%3 == 2 && q.AddAnyway != nil:
+		return q.AddAnyway(lane, v) // retries by itself while the lane is full; ends when the queue is closed
+	}
+	return q.Add(lane, v)
 }
 
 func ExecStress(c CaseStress) *vkit.Result {
@@ -684,7 +711,12 @@ func ExecStress(c CaseStress) *vkit.Result {
 			for j := 0; j < n; j++ {
 				v := pi*100000 + j
 				for {
-					o := q.Add(qadapt.LaneReq, v)
+					var o qadapt.Outcome
+					if c.Entries == "mixed" {
+						o = stressAdd(q, c.Kind, pi+j, v)
+					} else {
+						o = q.Add(qadapt.LaneReq, v)
+					}
 					if o == qadapt.Full {
 						runtime.Gosched()
 						continue
@@ -766,7 +798,7 @@ func ExecStress(c CaseStress) *vkit.Result {
 			}
 			seen[v] = true
 			p := v / 100000
-			if prev, ok := last[p]; ok && prev > v {
+			if prev, ok := last[p]; ok && prev > v && c.Entries != "mixed" {
 				return res.Failf("stress-order", "%s: consumer %d got item %d of producer %d after item %d", c.Kind, ci, v, p, prev)
 			}
 			last[p] = v
@@ -800,6 +832,9 @@ func ExecStress(c CaseStress) *vkit.Result {
 	}
 	if c.CapReq > 0 {
 		res.Class("bounded")
+	}
+	if c.Entries == "mixed" {
+		res.Class("every-add-entry-point-in-turn")
 	}
 	return res
 }
@@ -1026,36 +1061,112 @@ type CaseTie struct {
 	Rounds    int    `json:"rounds"`
 	Consumers int    `json:"consumers"`
 	Anyway    []bool `json:"anyway"`
-	PreItems  int    `json:"pre_items"` // priq: items queued before the round (the racing Pop takes the last one)
+	// priq: items queued before the round. 1-2: the racing Pop takes the last one; 0: the racing Pop finds the queue EMPTY
+	PreItems int `json:"pre_items"`
+	// priq, PreItems > 0: the racing consumer polls - it calls Pop without a receive before it (the signal of the queued
+	// item stays in the channel); default: the documented receive-then-Pop
+	Direct bool `json:"direct,omitempty"`
 	// Racer: what races the consumers entering their pop: "" Close; "tryclose" (two-lane queue: TryClose on the empty
-	// queue closes it); "adds": one add per consumer (ordinary, prior and - two-lane queue - control adds in turn) and no
-	// close at all: every consumer must come back with an item
+	// queue closes it); "adds": one add per consumer (ordinary, prior, Add*Anyway, on the request and - two-lane queue -
+	// the control lane, in turn) and no close at all: every consumer must come back with an item; "cycle": all of these
+	// in turn, round by round
 	Racer string `json:"racer,omitempty"`
+	// Barrier: how the parties of a round are released together: "" a closed channel (they are woken through the
+	// scheduler, microseconds apart); "spin": they spin on a flag and start within nanoseconds of one another, each after
+	// a small delay that sweeps all offsets round by round: consumers round mod SkewA, the racer (round / SkewA) mod SkewB
+	// units of SkewUnit atomic loads
+	Barrier  string `json:"barrier,omitempty"`
+	SkewA    int    `json:"skew_a,omitempty"`
+	SkewB    int    `json:"skew_b,omitempty"`
+	SkewUnit int    `json:"skew_unit,omitempty"`
 }
 
+// weights: the two-lane queue has the most entry points that can race a consumer (TryClose, control lane, front adds)
+var tieKinds = []string{qadapt.KindQ, qadapt.KindAsync, qadapt.KindMux, qadapt.KindMux, qadapt.KindMQ, qadapt.KindMQ, qadapt.KindMQ, qadapt.KindSync, qadapt.KindPri, qadapt.KindPri, qadapt.KindPri}
+
 func GenTie(t *rapid.T) CaseTie {
-	c := CaseTie{Kind: rapid.SampledFrom(append(append([]string{}, blockingKinds...), qadapt.KindPri, qadapt.KindPri)).Draw(t, "kind")}
+	c := CaseTie{Kind: rapid.SampledFrom(tieKinds).Draw(t, "kind")}
 	c.Procs = rapid.SampledFrom([]int{2, 4, 8}).Draw(t, "procs")
 	c.Rounds = rapid.SampledFrom([]int{300, 1000, 3000}).Draw(t, "rounds")
 	c.Consumers = rapid.IntRange(1, 4).Draw(t, "consumers")
 	for i := 0; i < c.Consumers; i++ {
 		c.Anyway = append(c.Anyway, rapid.Bool().Draw(t, "anyway"))
 	}
-	c.PreItems = rapid.IntRange(1, 2).Draw(t, "pre")
+	c.PreItems = rapid.SampledFrom([]int{0, 0, 0, 1, 1, 2}).Draw(t, "pre")
+	if c.Kind == qadapt.KindPri {
+		c.Direct = c.PreItems > 0 && rapid.IntRange(0, 3).Draw(t, "direct") > 0
+		// the priority queue's rounds are cheap (no parked consumers to wake) and its windows the narrowest: several times
+		// the rounds (fewer under the race detector, where a round costs ten times more)
+		c.Rounds = rapid.SampledFrom(map[bool][]int{false: {3000, 10000}, true: {1000, 3000}}[raceEnabled]).Draw(t, "prirounds")
+	}
 	if c.Kind != qadapt.KindPri {
-		c.Racer = rapid.SampledFrom([]string{"", "", "adds", "adds", "tryclose"}).Draw(t, "racer")
+		c.Racer = rapid.SampledFrom([]string{"cycle", "cycle", "cycle", "", "adds", "tryclose"}).Draw(t, "racer")
 		if c.Racer == "tryclose" && c.Kind != qadapt.KindMQ {
 			c.Racer = ""
-		} else if c.Kind == qadapt.KindMQ && c.Racer == "" && rapid.Bool().Draw(t, "mqtryclose") {
-			c.Racer = "tryclose"
 		}
+	}
+	if rapid.IntRange(0, 7).Draw(t, "barrier") > map[bool]int{false: 1, true: 0}[c.Kind == qadapt.KindPri] {
+		c.Barrier = "spin"
+		c.SkewA = rapid.SampledFrom([]int{1, 7, 7, 13}).Draw(t, "skewa")
+		c.SkewB = rapid.SampledFrom([]int{1, 11, 11, 29}).Draw(t, "skewb")
+		c.SkewUnit = rapid.SampledFrom([]int{1, 1, 4, 16}).Draw(t, "skewunit")
 	}
 	return c
 }
 
+// tieBarrier releases the parties of one round together. Spinning is bounded: a party that is not released soon
+// yields its processor between looks, so that more parties than processors still meet.
+type tieBarrier struct {
+	arrived atomic.Int32
+	rel     atomic.Bool
+}
+
+// (under the race detector an atomic load costs some 50 times more: the bound is lowered accordingly)
+var tieSpinBound = map[bool]int{false: 2000, true: 40}[raceEnabled]
+
+func (b *tieBarrier) wait(skew int) {
+	b.arrived.Add(1)
+	for i := 0; !b.rel.Load(); i++ {
+		if i > tieSpinBound {
+			runtime.Gosched()
+		}
+	}
+	for i := 0; i < skew; i++ {
+		_ = b.rel.Load()
+	}
+}
+
+func (b *tieBarrier) release(n int) {
+	for i := 0; int(b.arrived.Load()) != n; i++ {
+		if i > tieSpinBound/10 {
+			runtime.Gosched()
+		}
+	}
+	b.rel.Store(true)
+}
+
+// tieAdd is the i-th add of the adds racer in a round: the entry points in turn
+func tieAdd(q *qadapt.Q, kind string, turn, v int) {
+	lane := qadapt.LaneReq
+	if kind == qadapt.KindMQ && turn%6 >= 3 {
+		lane = qadapt.LaneCtrl
+	}
+	switch {
+	case kind == qadapt.KindSync:
+		q.Add(lane, v)
+	case turn%3 == 1:
+		q.AddPrior(lane, v)
+	case turn%3 == 2 && q.AddAnyway != nil:
+		q.AddAnyway(lane, v) // the lane is unbounded: never full, never sleeps
+	default:
+		q.Add(lane, v)
+	}
+}
+
 func ExecTie(c CaseTie) *vkit.Result {
 	res := &vkit.Result{}
-	if c.Rounds < 1 || c.Rounds > 100000 || c.Consumers < 1 || c.Consumers > 16 || len(c.Anyway) < c.Consumers || c.PreItems < 1 || c.PreItems > 8 {
+	if c.Rounds < 1 || c.Rounds > 100000 || c.Consumers < 1 || c.Consumers > 16 || len(c.Anyway) < c.Consumers || c.PreItems < 0 || c.PreItems > 8 ||
+		c.SkewA < 0 || c.SkewA > 1000 || c.SkewB < 0 || c.SkewB > 1000 || c.SkewUnit < 0 || c.SkewUnit > 64 {
 		res.Skip("malformed-config")
 		return res
 	}
@@ -1066,11 +1177,48 @@ func ExecTie(c CaseTie) *vkit.Result {
 	if c.Procs >= 1 && c.Procs <= 64 {
 		defer runtime.GOMAXPROCS(runtime.GOMAXPROCS(c.Procs))
 	}
+	spin := c.Barrier == "spin"
+	// the parties of a round: wait(delay class) blocks until the round is released
+	type gate struct {
+		wait    func(skew int)
+		release func()
+	}
+	newGate := func(parties, round int) gate {
+		if !spin {
+			start := make(chan struct{})
+			return gate{wait: func(int) { <-start }, release: func() { close(start) }}
+		}
+		b := &tieBarrier{}
+		return gate{wait: b.wait, release: func() { b.release(parties) }}
+	}
+	skewOf := func(round int, racer bool) int {
+		if !spin {
+			return 0
+		}
+		if racer {
+			return max(1, c.SkewUnit) * (round / max(1, c.SkewA) % max(1, c.SkewB))
+		}
+		return max(1, c.SkewUnit) * (round % max(1, c.SkewA))
+	}
+	racers := []string{c.Racer}
+	if c.Racer == "cycle" {
+		racers = []string{"", "adds"}
+		if c.Kind == qadapt.KindMQ {
+			racers = []string{"", "adds", "tryclose"}
+		}
+	}
 	sched := vkit.NewSched()
+	baseline := map[int64]struct{}{} // goroutines that are not part of the case (the controller among them)
+	for _, g := range sched.Dump() {
+		baseline[g.ID] = struct{}{}
+	}
 	var problem, site string
-	round := 0
+	var curRound, curRacerIx atomic.Int64 // read by the controller while the rounds' goroutine may be parked for good
+	finished := make(chan struct{})
 	op := sched.Go("tie-rounds", func() {
-		for round = 0; round < c.Rounds && problem == ""; round++ {
+		defer close(finished)
+		for round := 0; round < c.Rounds && problem == ""; round++ {
+			curRound.Store(int64(round))
 			if c.Kind == qadapt.KindPri {
 				q := qadapt.New(qadapt.KindPri, 64, 0)
 				for i := 0; i < c.PreItems; i++ {
@@ -1084,30 +1232,47 @@ func ExecTie(c CaseTie) *vkit.Result {
 					}
 					q.PopPri()
 				}
-				start := make(chan struct{})
+				g := newGate(2, round)
+				sa, sb := skewOf(round, false), skewOf(round, true)
 				var wg sync.WaitGroup
 				wg.Add(2)
-				go func() { // the consumer of the documented protocol: receive, then pop (empties the queue)
+				// the consumer of the documented protocol: receive, then pop: with one item queued its Pop empties the queue.
+				// With none queued there is no signal to receive: a Pop of somebody who polls (or was handed a stale signal
+				// earlier) finds the queue empty
+				go func() {
 					defer wg.Done()
-					<-start
-					select {
-					case <-q.WaitCh():
-					default:
+					g.wait(sa)
+					if c.PreItems > 0 && !c.Direct {
+						select {
+						case <-q.WaitCh():
+						default:
+						}
 					}
 					q.PopPri()
 				}()
-				go func() { defer wg.Done(); <-start; q.PushPri(100, 1) }()
-				close(start)
+				go func() { defer wg.Done(); g.wait(sb); q.PushPri(100, 1) }()
+				g.release()
 				wg.Wait()
 				// at rest now: no call in progress, no signal held by anybody
 				if n := q.Len(); n > 0 && len(q.WaitCh()) != 1 {
-					site, problem = "tie-waitch-not-readable", fmt.Sprintf("round %d: a Pop that emptied the queue raced a Push; both have returned, the queue holds %d item(s), but the wait channel is not readable", round, n)
+					how := "a Pop that emptied the queue"
+					if c.PreItems == 0 {
+						how = "a Pop on the empty queue"
+					}
+					site, problem = "tie-waitch-not-readable", fmt.Sprintf("round %d: %s raced a Push; both have returned, the queue holds %d item(s), but the wait channel is not readable", round, how, n)
 					return
 				}
 				continue
 			}
 			q := qadapt.New(c.Kind, 0, 0)
-			start := make(chan struct{})
+			racer := racers[round%len(racers)]
+			if racer == "tryclose" && q.TryClose == nil {
+				racer = ""
+			}
+			curRacerIx.Store(int64(round % len(racers)))
+			turn := round / len(racers)
+			g := newGate(c.Consumers+1, round)
+			sa, sb := skewOf(round, false), skewOf(round, true)
 			var wg sync.WaitGroup
 			for i := 0; i < c.Consumers; i++ {
 				pop := q.Pop
@@ -1115,48 +1280,57 @@ func ExecTie(c CaseTie) *vkit.Result {
 					pop = q.PopAnyway
 				}
 				wg.Add(1)
-				go func() { defer wg.Done(); <-start; _, _, _ = pop() }()
+				go func() { defer wg.Done(); g.wait(sa + i); _, _, _ = pop() }()
 			}
 			wg.Add(1)
-			switch {
-			case c.Racer == "tryclose" && q.TryClose != nil:
-				go func() { defer wg.Done(); <-start; q.TryClose() }()
-			case c.Racer == "adds" && c.Kind != qadapt.KindSync:
+			switch racer {
+			case "tryclose":
+				go func() { defer wg.Done(); g.wait(sb); q.TryClose() }()
+			case "adds":
 				go func() {
 					defer wg.Done()
-					<-start
+					g.wait(sb)
 					for i := 0; i < c.Consumers; i++ {
-						switch {
-						case i%3 == 1:
-							q.AddPrior(qadapt.LaneReq, i)
-						case i%3 == 2 && c.Kind == qadapt.KindMQ:
-							q.Add(qadapt.LaneCtrl, i)
-						default:
-							q.Add(qadapt.LaneReq, i)
-						}
-					}
-				}()
-			case c.Racer == "adds":
-				go func() {
-					defer wg.Done()
-					<-start
-					for i := 0; i < c.Consumers; i++ {
-						q.Add(qadapt.LaneReq, i)
+						tieAdd(q, c.Kind, turn+i, i)
 					}
 				}()
 			default:
-				go func() { defer wg.Done(); <-start; q.Close() }()
+				go func() { defer wg.Done(); g.wait(sb); q.Close() }()
 			}
-			close(start)
+			g.release()
 			wg.Wait() // a consumer that misses the close parks forever: seen by the quiescence detector below
 		}
 	})
+	// The rounds are left alone while they run (a stop-the-world goroutine dump every few microseconds would smear the
+	// very ties they are after). The clock only decides when to LOOK: rounds that have not ended after a while are
+	// examined by the quiescence detector, which alone says whether somebody is parked for good.
+	for done := false; !done; {
+		tm := time.NewTimer(250 * time.Millisecond)
+		select {
+		case <-finished:
+			done = true
+		case <-tm.C:
+			// one look: has everything that belongs to the case come to rest (somebody parked for good)?
+			done = true
+			for _, g := range sched.Dump() {
+				if _, old := baseline[g.ID]; old {
+					continue
+				}
+				if !vkit.IsParked(g.State) && !(g.State == "semacquire" && strings.Contains(g.Stack, "sync.(*WaitGroup).Wait")) {
+					done = false // still running: leave it alone
+					break
+				}
+			}
+		}
+		tm.Stop()
+	}
 	sched.MustQuiesce()
 	if !op.Done() {
-		if c.Racer == "adds" {
-			return res.Failf("tie-add-missed", "%s: round %d: %d consumers entered their blocking pop while %d items were added (ordinary / prior / control adds); the adds have returned, yet a consumer is parked forever beside its item", c.Kind, round, c.Consumers, c.Consumers)
+		round, curRacer := int(curRound.Load()), racers[curRacerIx.Load()]
+		if curRacer == "adds" {
+			return res.Failf("tie-add-missed", "%s: round %d: %d consumers entered their blocking pop while %d items were added (ordinary / prior / Add*Anyway adds, request and control lane in turn); the adds have returned, yet a consumer is parked forever beside its item", c.Kind, round, c.Consumers, c.Consumers)
 		}
-		return res.Failf("tie-close-missed", "%s: round %d: %d consumers entered their blocking pop while Close ran (%s); it has returned, yet somebody is parked forever", c.Kind, round, c.Consumers, map[bool]string{true: "TryClose", false: "Close"}[c.Racer == "tryclose"])
+		return res.Failf("tie-close-missed", "%s: round %d: %d consumers entered their blocking pop while Close ran (%s); it has returned, yet somebody is parked forever", c.Kind, round, c.Consumers, map[bool]string{true: "TryClose", false: "Close"}[curRacer == "tryclose"])
 	}
 	if p := op.Panic(); p != nil {
 		return res.Failf("tie-panic", "%v", p)
@@ -1166,9 +1340,22 @@ func ExecTie(c CaseTie) *vkit.Result {
 	}
 	res.NonTrivial = c.Rounds >= 300
 	if c.Kind == qadapt.KindPri {
-		res.Class("priq-pop-vs-push")
+		switch {
+		case c.PreItems == 0:
+			res.Class("priq-pop-on-empty-vs-push")
+		case c.Direct:
+			res.Class("priq-emptying-pop-without-receive-vs-push")
+		default:
+			res.Class("priq-pop-vs-push")
+		}
 	} else {
-		res.Class("pop-entry-vs-" + map[string]string{"": "close", "adds": "adds", "tryclose": "tryclose"}[c.Racer])
+		res.Class("pop-entry-vs-" + map[string]string{"": "close", "adds": "adds", "tryclose": "tryclose", "cycle": "all-in-turn"}[c.Racer])
+		if c.Kind == qadapt.KindMQ && (c.Racer == "cycle" || c.Racer == "tryclose") {
+			res.Class("two-lane-queue-tryclose-rounds")
+		}
+	}
+	if spin {
+		res.Class("spin-barrier")
 	}
 	return res
 }
@@ -1182,7 +1369,7 @@ var PartCtl = &vkit.Part[CaseCtl]{
 	Gen: GenCtl, Exec: ExecCtl,
 }
 
-var stressRule = "rapid: 1-4 producers (1-30 items each, retry on full), 1-5 consumers looping Pop or PopAnyway until closed, a closer that closes after a drawn number of accepted adds; GOMAXPROCS 1/2/4/8. Oracle: at quiescence nobody is parked, consumed + residue == accepted (no loss, duplicate, invention), per-producer order kept per consumer. Non-trivial: >= 2 consumers and >= 2 items; distinct = distinct case JSON"
+var stressRule = "rapid: 1-4 producers (1-30 items each, retry on full; half of the cases: per item the entry points in turn - ordinary / at the front / Add*Anyway, request and control lane - and then no order asked), 1-5 consumers looping Pop or PopAnyway until closed, a closer that closes after a drawn number of accepted adds; GOMAXPROCS 1/2/4/8. Oracle: at quiescence nobody is parked, consumed + residue == accepted (no loss, duplicate, invention), per-producer order kept per consumer. Non-trivial: >= 2 consumers and >= 2 items; distinct = distinct case JSON"
 
 var PartStress = &vkit.Part[CaseStress]{
 	Property: Property, Name: "stress",
@@ -1194,7 +1381,7 @@ var PartStress = &vkit.Part[CaseStress]{
 var PartStressRace = &vkit.Part[CaseStress]{
 	Property: Property, Name: "race-stress",
 	Rule:  stressRule + " (binary built with -race)",
-	Quick: 100, Thorough: 1000,
+	Quick: 300, Thorough: 1500,
 	Gen: GenStress, Exec: ExecStress,
 }
 
@@ -1221,7 +1408,7 @@ var PartPriStressRace = &vkit.Part[CasePriStress]{
 	Gen: GenPriStress, Exec: ExecPriStress,
 }
 
-var tieRule = "rapid: per case 300-3000 rounds on fresh queues, GOMAXPROCS 2/4/8. Blocking queues: 1-4 consumers enter Pop / PopAnyway while Close runs, all released together by a barrier; whatever the order, every consumer must return (a parked one is seen at quiescence - exact). Priority queue: a receive-then-Pop that empties the queue races a Push; when both have returned, a non-empty queue must have a readable wait channel. Non-trivial: >= 300 rounds; distinct = distinct case JSON"
+var tieRule = "rapid: per case 300-3000 rounds (priority queue: 3000-10000; under -race 1000-3000) on fresh queues, GOMAXPROCS 2/4/8; the parties of a round are released together by a closed channel or (3 of 4 cases; priority queue 7 of 8) by a spin barrier after which each party waits a few atomic loads more - consumers round mod {1,7,13}, the racer (round / that) mod {1,11,29}, in units of 1/4/16 loads - so that the offsets between them sweep a grid of nanoseconds; the rounds run undisturbed (while they run a timer takes one goroutine snapshot every 250 ms; only when that shows everything at rest - or the rounds have ended - does the quiescence detector look, and only it decides). Blocking queues (the two-lane queue weighted 3 in 11): 1-4 consumers enter Pop / PopAnyway while a racer runs: Close; TryClose (two-lane queue); one add per consumer going round the entry points (ordinary / at the front / Add*Anyway, request and control lane); or (half of the cases) all of these in turn, round by round. Whatever the order, every consumer must return (a parked one is seen at quiescence - exact). Priority queue (3 in 11): a Pop that empties the queue - after a receive, as documented, or without one, as a poller does - or (half of the cases) a Pop that finds the queue empty races a Push; when both have returned, a non-empty queue must have a readable wait channel. Non-trivial: >= 300 rounds; distinct = distinct case JSON"
 
 var PartTie = &vkit.Part[CaseTie]{
 	Property: Property, Name: "tie-stress",
